@@ -329,12 +329,16 @@ func c04Apply(buf []byte, m C04Mut, srcs []*c04Built) (out []byte, tainted bool,
 		switch mod(m.B, 5) {
 		case 0:
 			cs := uint64(binary.LittleEndian.Uint32(h[0:]))
-			v := pick64(m.C, 0, 1, cs-1, cs+1, 1<<31, 1<<32-1, rem, rem+1, m.V)
+			// (sizes that make "position + header + size" wrap in 32-bit arithmetic: 2^32 minus the header sizes,
+			// minus a small drawn k, minus the block's own position)
+			hs := uint64(hydfmt.BlockHeaderSize)
+			v := pick64(m.C, 0, 1, cs-1, cs+1, 1<<31, 1<<32-1, rem, rem+1, m.V,
+				1<<32-hs, 1<<32-hs-1, 1<<32-hs+1, 1<<32-64, 1<<32-(m.V%33), 1<<32-uint64(b.off)-hs, 1<<32-uint64(b.off), 1<<32-hs-cs)
 			binary.LittleEndian.PutUint32(h[0:], uint32(v))
 			return buf, false, "blkhdr-compressedsize"
 		case 1:
 			us := uint64(binary.LittleEndian.Uint32(h[4:]))
-			binary.LittleEndian.PutUint32(h[4:], uint32(pick64(m.C, 0, 1, us-1, us+1, 1<<31, 1<<32-1, m.V)))
+			binary.LittleEndian.PutUint32(h[4:], uint32(pick64(m.C, 0, 1, us-1, us+1, 1<<31, 1<<32-1, m.V, 1<<32-uint64(hydfmt.BlockHeaderSize), 1<<32-(m.V%33))))
 			return buf, false, "blkhdr-uncompressedsize"
 		case 2:
 			ec := uint64(binary.LittleEndian.Uint16(h[8:]))
